@@ -1,4 +1,6 @@
+pub mod compile;
 pub mod listing;
+pub mod machine;
 pub mod model;
 pub mod project;
 pub mod reader;
